@@ -1,6 +1,8 @@
 package rules
 
 import (
+	"fmt"
+	"sort"
 	"math/big"
 	"go/token"
 	"strings"
@@ -20,6 +22,7 @@ func checkC09(P *core.Program, R *core.Report) {
 		"Error discipline: a non-nil error of a pairing primitive never becomes a nil return (one frozen latent instance in Borrow). Not decided: truncation drift between separately truncated deltas, actual bank backing."
 	subjects := P.Reach(P.FindRoots().Consensus())
 	markFrozenErrorToNil(P)
+	checkAssetKeys(P, R, subjects)
 	for _, f := range []struct {
 		field, upd string
 		signArg    int
@@ -565,4 +568,71 @@ func checkMinCustodyBody(P *core.Program, R *core.Report) {
 	}
 	R.Add("C09-min-custody-guard", key, "next asset only under custody ≤ amm balance", P.Pos(fn.Pos()), ok && n > 0,
 		"the per-asset loop goes on (and the check succeeds) only when the amm pool balance of the asset is not below the perpetual pool's custody of that denom")
+}
+
+// checkAssetKeys (C09-asset-key): the pool's aggregates are kept per (side, asset); an
+// update is booked under the right key only if the asset argument of Pool.Update<X> is the
+// position's own <X>Asset field (custody under CustodyAsset, liabilities under
+// LiabilitiesAsset, collateral under CollateralAsset, the take-profit twins likewise) and
+// the side argument is the position's Position.  A denom of the same type taken from
+// elsewhere (the base currency, say) coincides for most positions and books the others
+// under the wrong asset: the aggregate of one asset keeps the closed position, the other
+// goes negative.
+func checkAssetKeys(P *core.Program, R *core.Report, subjects map[*ssa.Function]bool) {
+	const rule = "C09-asset-key"
+	want := map[string]string{
+		"UpdateCustody":               ".CustodyAsset",
+		"UpdateLiabilities":           ".LiabilitiesAsset",
+		"UpdateCollateral":            ".CollateralAsset",
+		"UpdateTakeProfitLiabilities": ".LiabilitiesAsset",
+		"UpdateTakeProfitCustody":     ".CustodyAsset",
+	}
+	var fns []*ssa.Function
+	for fn := range subjects {
+		if fn.Blocks != nil && !core.IsGeneratedOrAux(P.File(fn.Pos())) {
+			fns = append(fns, fn)
+		}
+	}
+	sort.Slice(fns, func(i, j int) bool { return P.Key(fns[i]) < P.Key(fns[j]) })
+	n := 0
+	for _, fn := range fns {
+		var ff *core.FuncFacts
+		for _, c := range core.Calls(fn) {
+			sc := c.Common().StaticCallee()
+			if sc == nil || sc.Signature.Recv() == nil || !strings.HasSuffix(P.Key(sc), "x/perpetual/types.Pool."+sc.Name()) {
+				continue
+			}
+			field, ok := want[sc.Name()]
+			if !ok {
+				continue
+			}
+			args := c.Common().Args
+			if len(args) < 5 {
+				continue
+			}
+			if ff == nil {
+				ff = P.Facts(fn)
+			}
+			n++
+			isMTPField := func(v ssa.Value, path string) bool {
+				os := ff.Origins(v)
+				if len(os) == 0 {
+					return false
+				}
+				for _, o := range os {
+					if !strings.HasSuffix(o.Path, path) {
+						return false
+					}
+				}
+				return true
+			}
+			assetOK := isMTPField(args[1], field)
+			sideOK := isMTPField(args[len(args)-1], ".Position")
+			R.Add(rule, P.Key(fn), sc.Name()+" keyed by the position's"+field+" and .Position", P.Pos(P.InstrPos(c.(ssa.Instruction))), assetOK && sideOK,
+				fmt.Sprintf("the aggregate is booked under the asset the position itself records for it (asset ok: %v, side ok: %v)", assetOK, sideOK))
+		}
+	}
+	if n < 10 {
+		R.Add(rule, "-", "Pool.Update* call sites", "-", false, fmt.Sprintf("only %d call sites found (anchor changed)", n))
+	}
 }
